@@ -26,9 +26,11 @@ def full_trajectory(mod, sig_row, sig, dt, backend):
     init_fn, step_fn = build_init_and_step_fn(mod, voltage_solver=backend)
     st, params = init_fn([], None, None, dt)
     traj = [{k: np.asarray(v, dtype=np.float64) for k, v in st.items()}]
-    js = jax.jit(lambda s, x: step_fn(s, params, {"i": x}, {"i": jnp.asarray([sig_row])}, dt))
-    for k in range(len(sig)):
-        st = js(st, jnp.asarray([sig[k]]))
+    rows = [sig_row] if np.ndim(sig_row) == 0 else list(sig_row)
+    sig = np.asarray(sig, dtype=np.float64).reshape(len(rows), -1)
+    js = jax.jit(lambda s, x: step_fn(s, params, {"i": x}, {"i": jnp.asarray(rows)}, dt))
+    for k in range(sig.shape[1]):
+        st = js(st, jnp.asarray(sig[:, k]))
         traj.append({kk: np.asarray(v, dtype=np.float64) for kk, v in st.items()})
     return traj
 
@@ -174,6 +176,83 @@ def run(args):
         c2 = np.asarray(jx.integrate(mod, data_clamps=mod.select(nodes=[crow]).data_clamp("v", jnp.asarray(cv)), voltage_solver=backend))
         if not np.array_equal(c1, c2):
             R.spec_fail(dict(kind="data_clamp-differs"), "data_clamp differs from clamp", inp, None)
+        # ---------------- several inputs given in arbitrary (not ascending) order: stimulate == chained data_stimulate == manual stepping
+        mod.delete_stimuli(); mod.delete_clamps(); mod.delete_recordings()
+        mod.select(nodes=list(range(n))).record("v", verbose=False)
+        m = int(rng.integers(2, 5))
+        rows = [int(x) for x in rng.choice(n, size=m, replace=n < m)]
+        if n >= 3 and rows == sorted(rows):
+            rows = rows[::-1] if len(set(rows)) > 1 else rows
+        sigs = [stim_signal(rng, nsteps) + 0.013 * (j + 1) for j in range(m)]
+        for r_, s_ in zip(rows, sigs):
+            mod.select(nodes=[r_]).stimulate(jnp.asarray(s_), verbose=False)
+        via_a = np.asarray(jx.integrate(mod, voltage_solver=backend, delta_t=dt), dtype=np.float64)
+        mod.delete_stimuli()
+        ds = None
+        for r_, s_ in zip(rows, sigs):
+            ds = mod.select(nodes=[r_]).data_stimulate(jnp.asarray(s_), ds)
+        via_b = np.asarray(jx.integrate(mod, data_stimuli=ds, voltage_solver=backend, delta_t=dt), dtype=np.float64)
+        mod.select(nodes=[rows[0]]).stimulate(jnp.asarray(sigs[0]), verbose=False)
+        ds = None
+        for r_, s_ in zip(rows[1:], sigs[1:]):
+            ds = mod.select(nodes=[r_]).data_stimulate(jnp.asarray(s_), ds)
+        via_m = np.asarray(jx.integrate(mod, data_stimuli=ds, voltage_solver=backend, delta_t=dt), dtype=np.float64)
+        mod.delete_stimuli()
+        traj = full_trajectory(mod, rows, sigs, dt, backend)
+        exp = np.asarray([t_["v"][:n] for t_ in traj]).T
+        inp2 = dict(rows=rows, **inp)
+        R.evaluations += 1
+        for nm_, via in (("stimulate", via_a), ("data_stimulate", via_b), ("stimulate+data_stimulate", via_m)):
+            if via.shape != exp.shape or not np.allclose(via, exp, rtol=1e-9, atol=1e-9):
+                R.spec_fail(dict(kind="stimuli-wrong-target", route=nm_), f"{m} stimuli on compartments {rows} (in this call order) via {nm_}: voltages are not those of "
+                            "stepping with exactly these currents on exactly these compartments", inp2, float(np.max(np.abs(via - exp))) if via.shape == exp.shape else None)
+        # ---------------- several clamps of one synaptic state in arbitrary order: clamp == chained data_clamp; clamps hold, others untouched
+        cands = []
+        if kind == "net" and len(mod.edges):
+            for sy in mod.synapses:
+                es = mod.edges.index[mod.edges["type"] == sy._name].to_numpy()
+                if len(es) >= 2 and sy.synapse_states:
+                    cands.append((sorted(sy.synapse_states)[0], [int(x) for x in es]))
+        if cands:
+            sname, es = cands[int(rng.integers(0, len(cands)))]
+            kk = int(rng.integers(1, min(3, len(es) - 1) + 1))
+            chosen = [int(x) for x in rng.permutation(es)[:kk]]
+            if chosen == sorted(chosen) and kk > 1:
+                chosen = chosen[::-1]
+            vals = [rng.uniform(0, 1, nsteps) for _ in chosen]
+            mod.delete_recordings(); mod.select(edges=es).record(sname, verbose=False)
+            res = {}
+            for route in ("clamp", "data_clamp", "clamp+data_clamp"):
+                mod.delete_clamps(); dc = None
+                for j, (e_, v_) in enumerate(zip(chosen, vals)):
+                    if route == "clamp" or (route == "clamp+data_clamp" and j == 0):
+                        mod.select(edges=[e_]).clamp(sname, jnp.asarray(v_), verbose=False)
+                    else:
+                        dc = mod.select(edges=[e_]).data_clamp(sname, jnp.asarray(v_), dc)
+                try:
+                    res[route] = np.asarray(jx.integrate(mod, data_clamps=dc, voltage_solver=backend, delta_t=dt), dtype=np.float64)
+                except Exception as ex:
+                    R.spec_fail(dict(kind="integrate-raises-with-clamps", err=type(ex).__name__, route=route), f"integrate raises {type(ex).__name__} with {route} of {sname} on edges {chosen}", inp, repr(ex)[:300])
+                mod.delete_clamps()
+            R.evaluations += 1
+            inp3 = dict(state=sname, edges=es, clamped=chosen, **inp)
+            for route, rr in res.items():
+                bad = None
+                if rr.shape != (len(es), nsteps + 1):
+                    bad = f"shape {rr.shape}"
+                else:
+                    for e_, v_ in zip(chosen, vals):
+                        if not np.array_equal(rr[es.index(e_), 1:], v_):
+                            bad = f"the clamped synapse (edge {e_}) does not follow its clamp"
+                    for j, e_ in enumerate(es):
+                        for c_, v_ in zip(chosen, vals):
+                            if e_ not in chosen and np.array_equal(rr[j, 1:], v_):
+                                bad = f"edge {e_} was not clamped but follows the clamp of edge {c_}"
+                if bad:
+                    R.spec_fail(dict(kind="synaptic-clamp-wrong-target", route=route), f"{route} of {sname} on edges {chosen} (edges of this type: {es}): {bad}", inp3, None)
+            if len(res) == 3 and not (np.array_equal(res["clamp"], res["data_clamp"]) and np.array_equal(res["clamp"], res["clamp+data_clamp"])):
+                R.spec_fail(dict(kind="data_clamp-differs", state="synapse"), f"data_clamp of {sname} on edges {chosen} differs from clamp", inp3, None)
+            R.count("synaptic data_clamp block")
         # ---------------- t_max: padding, truncation, short clamp
         mod.delete_recordings(); mod.select(nodes=[stim_row]).record("v", verbose=False)
         L = nsteps
